@@ -242,6 +242,11 @@ func (c *pathParser) addSeg(segString []byte) error {
 		return err
 	}
 
+	if !c.inPath && op != 'm' && op != 'M' && op != 'z' && op != 'Z' {
+		// nothing to draw from: path data begin with a moveto
+		return fmt.Errorf("path data do not begin with a moveto, got %c", op)
+	}
+
 	L := len(c.points)
 	rel := false
 	switch op {
